@@ -327,7 +327,7 @@ example : (foldGraph ctxWA infoWA gWFA).2.nodes.map (fun n => (n.op, n.inputs, n
     (foldGraph ctxWA infoWA gWFA).2.outputs = ["s", "z"] ∧ (foldGraph ctxWA infoWA gWFA).2.inits = [("o", "f")] ∧
     (foldGraph ctxWA infoWA gWFA).1.removed = ["b", "a"] := by decide
 
-theorem fresh_ne' (k : Nat) (s : String) (hs : s.toList.head? ≠ some '%') : "%" ++ toString k ≠ s := by
+theorem fresh_ne2 (k : Nat) (s : String) (hs : s.toList.head? ≠ some '%') : "%" ++ toString k ≠ s := by
   intro h
   apply hs
   rw [← h]
@@ -353,15 +353,15 @@ theorem gWFA_hyps : (∀ n ∈ gWFA.nodes, FragBk n) ∧ (∀ k : Nat, cnt ("%" 
     simp only [List.mem_cons, Option.some.injEq, List.mem_nil_iff, or_false]
     intro h
     rcases h with h | h | h | h | h | h | h | h | h
-    · exact fresh_ne' k "a" (by decide) h
-    · exact fresh_ne' k "b" (by decide) h
-    · exact fresh_ne' k "x" (by decide) h
-    · exact fresh_ne' k "o" (by decide) h
-    · exact fresh_ne' k "s" (by decide) h
-    · exact fresh_ne' k "y" (by decide) h
-    · exact fresh_ne' k "c" (by decide) h
-    · exact fresh_ne' k "z" (by decide) h
-    · exact fresh_ne' k "w" (by decide) h
+    · exact fresh_ne2 k "a" (by decide) h
+    · exact fresh_ne2 k "b" (by decide) h
+    · exact fresh_ne2 k "x" (by decide) h
+    · exact fresh_ne2 k "o" (by decide) h
+    · exact fresh_ne2 k "s" (by decide) h
+    · exact fresh_ne2 k "y" (by decide) h
+    · exact fresh_ne2 k "c" (by decide) h
+    · exact fresh_ne2 k "z" (by decide) h
+    · exact fresh_ne2 k "w" (by decide) h
   · simp [gWFA, ClosedL, Graph.inits, Graph.inputs, Graph.nodes, Node.inputs, Node.outputs]
   · intro o ho
     simp only [gWFA, Graph.outputs, List.mem_cons, List.mem_nil_iff, or_false] at ho
